@@ -14,7 +14,9 @@ pub const WORDS: &[&str] = &[
 ];
 pub const NUMBERS: &[&str] = &["2", "10", "9.5", "-3", "0", "7", "100", "3.25", "-10", "42"];
 pub const DIRS: &[&str] = &["a", "b", "src", "docs", "my dir", "v1.2", "lib", "pkg"];
-pub const STEMS: &[&str] = &["main", "util", "x", "mod", "data", "conf", "app", "b"];
+pub const STEMS: &[&str] = &[
+    "main", "util", "x", "mod", "data", "conf", "app", "b", "my file", "v2.conf", "a",
+];
 pub const HASH_EXTS: &[&str] = &["py", "rb", "sh"];
 pub const WRAP_EXTS: &[&str] = &["rs", "js", "go", "ts", "java", "cs", "c", "cpp", "swift", "php", "toml"];
 
